@@ -45,6 +45,9 @@ def gen_model(rng, fmt, headers=False):
     used = set()
     for _ in range(rng.randint(1, 3)):
         p = rng.choice(PATHS + (HOSTILE_PATHS if not fmt.startswith('plain') else []))
+        if fmt == 'json' and rng.random() < 0.08:
+            # names that JSON has to escape (every path on Windows does): the record is read all the same
+            p = rng.choice(['win\\dir\\a.rs', 'src\\main.rs', 'odd "quoted" name.rs', 'back\\slash "and" quote.py', 'C:\\Users\\me\\x.c'])
         if not fmt.startswith('plain') and rng.random() < 0.008:
             p = rng.choice(MARKER_PATHS)
         if p in used:
